@@ -270,7 +270,13 @@ impl Mux {
                         length -= size;
                     }
                 }
-                _ => unreachable!("bad FrameKind"),
+                _ => {
+                    // The 2 frame kind bits have an unassigned value.
+                    return Err(RunError::Protocol(anyhow::format_err!(
+                        "bad frame kind in header {:#06x}",
+                        header.0
+                    )));
+                }
             }
         }
     }
